@@ -17,12 +17,12 @@
    it takes that lock.  The assumption is validated against the real threads on every run by the
    concurrent stage of checks/c04.py (real compaction_thread()s racing with ingesting threads; the
    recorded manifest history is audited by the oracle and by the extracted verifier). *)
-From Coq Require Import NArith List Permutation.
+From Coq Require Import NArith List Permutation Lia.
 From Blue Require Import Gen.Const_Setsum Setsum.Model Setsum.Proofs Setsum.Props_C14.
 From Blue Require Lsm.Model Lsm.History.
 From Blue Require Import Books.Model Books.ProofsGroup Books.ProofsChain Books.ProofsVerify Books.ProofsGc
                          Books.ProofsStore Books.ProofsTamper Books.ProofsDigit Books.ProofsHex Books.ProofsRaw
-                         Books.Bridge Books.ProofsBridgeLsm Books.ProofsBridge.
+                         Books.Bridge Books.ProofsBridgeLsm Books.ProofsBridge Books.ProofsFraming.
 Import ListNotations.
 Open Scope N_scope.
 
@@ -86,7 +86,7 @@ Proof.
   destruct (inv_log H coll b I) as (Hf & Hne & He).
   split.
   - unfold rfragments. rewrite (verify_frags_complete H coll (bdisk b) (fragments b) zero);
-      [|apply (inv_canon H coll b I)|exact Hf|apply (inv_gc H coll b I)].
+      [|apply (inv_canon H coll b I)|exact Hf|apply (inv_files_pass H coll b I)].
     unfold fragments. now rewrite log_end_snoc, He.
   - pose proof (inv_canon H coll b I) as Hc. change (mfragments (bman b)) with (fragments b) in Hc, Hf.
     clear -Hc Hf. revert Hc Hf. generalize zero. induction (fragments b) as [|fr frs IH]; intros acc Hc Hf; [constructor|].
@@ -112,7 +112,7 @@ Proof. intros H Hok coll. exact (verify_gc_accepts_walk H Hok coll). Qed.
 Theorem C04_verifier_rejects_digit_tamper : forall H coll disk pre t0 tpre t tpost t' post,
   Forall (Forall txn_canon) (pre ++ [t0 :: tpre ++ t :: tpost]) ->
   frags_ok zero (pre ++ [t0 :: tpre ++ t :: tpost]) ->
-  Forall (Forall (gc_pass H coll disk)) pre ->
+  Forall (Forall (files_pass H coll disk)) pre ->
   tampered t t' ->
   rejects (verify_frags H coll disk (map (map render) (pre ++ (t0 :: tpre ++ t' :: tpost) :: post)) zero).
 Proof.
@@ -127,7 +127,7 @@ Qed.
 (* ... and the first edit of a fragment (the roll-up) is checked for its O *)
 Theorem C04_verifier_rejects_rollup_O_tamper : forall H coll disk pre t0 tpost v post,
   Forall (Forall txn_canon) (pre ++ [t0 :: tpost]) -> frags_ok zero (pre ++ [t0 :: tpost]) ->
-  Forall (Forall (gc_pass H coll disk)) pre -> canonical v -> v <> tO t0 ->
+  Forall (Forall (files_pass H coll disk)) pre -> canonical v -> v <> tO t0 ->
   rejects (verify_frags H coll disk
              (map (map render) (pre ++ (mkT (tI t0) v (tD t0) (tadds t0) (trms t0) (tL t0) :: tpost) :: post)) zero).
 Proof.
@@ -166,7 +166,7 @@ Qed.
 Theorem C04_verifier_rejects_hex_digit_tamper : forall H coll disk pre t0 tpre t tpost post f i c' cs v v',
   Forall (Forall txn_canon) (pre ++ [t0 :: tpre ++ t :: tpost]) ->
   frags_ok zero (pre ++ [t0 :: tpre ++ t :: tpost]) ->
-  Forall (Forall (gc_pass H coll disk)) pre ->
+  Forall (Forall (files_pass H coll disk)) pre ->
   get_str (render t) f = Some cs -> (i < 64)%nat ->
   hexval c' = Some v' -> hexval (nth i cs 0) = Some v -> v' <> v ->
   rejects (verify_frags H coll disk
@@ -183,7 +183,7 @@ Qed.
 (* ... and one character of the O of a roll-up *)
 Theorem C04_verifier_rejects_hex_digit_tamper_rollup_O : forall H coll disk pre t0 tpost post i c' v v',
   Forall (Forall txn_canon) (pre ++ [t0 :: tpost]) -> frags_ok zero (pre ++ [t0 :: tpost]) ->
-  Forall (Forall (gc_pass H coll disk)) pre -> (i < 64)%nat ->
+  Forall (Forall (files_pass H coll disk)) pre -> (i < 64)%nat ->
   hexval c' = Some v' -> hexval (nth i (hexdigest (tO t0)) 0) = Some v -> v' <> v ->
   rejects (verify_frags H coll disk
              (map (map render) pre ++ (tamper_raw (render t0) DO i c' :: map render tpost) :: post) zero).
@@ -200,56 +200,159 @@ Qed.
 Theorem C04_store_log_is_balanced : forall H, hash_ok H -> forall coll ops b,
   all_accepted H coll (open_fresh) ops = true -> brun H coll (open_fresh) ops = Ok b ->
   Forall (Forall txn_canon) (fragments b) /\ frags_ok zero (fragments b) /\
-  Forall (Forall (gc_pass H coll (bdisk b))) (fragments b).
+  Forall (Forall (files_pass H coll (bdisk b))) (fragments b).
 Proof.
   intros H Hok coll ops b Hacc Hrun.
   destruct (brun_inv H Hok coll ops open_fresh (inv_open_fresh H coll) Hacc) as [(b' & E & I)|(c & E & _)]; rewrite E in Hrun; [|discriminate].
   inversion Hrun; subst b'. destruct (inv_log H coll b I) as (Hf & _).
-  split; [apply (inv_canon H coll b I)|]. split; [exact Hf|apply (inv_gc H coll b I)].
+  split; [apply (inv_canon H coll b I)|]. split; [exact Hf|apply (inv_files_pass H coll b I)].
 Qed.
 
-(* 5. Entry tamper.  Drop, duplicate or modify one key-value entry of one output file.  Under the
-   explicit hypothesis that the item hash separates the entries involved (no item hashes to the
-   neutral element, distinct entries have distinct item setsums on this finite set):
+(* 5. Entry tamper.  Drop, duplicate or modify one key-value entry of one output file.
+
+   REFUTED as the property states it ("modify one key-value entry ... rejected"), for ANY hash:
+   sst::Setsum frames a put as [8] ++ key ++ timestamp_le64 ++ value without length prefixes, so
+   two different entries can have the same frame - put "a"@1378 = 00 and put "ab"@5 = "" both
+   frame to 08 61 62 05 00 00 00 00 00 00 00 - and then the same setsum whatever H is: replacing
+   one by the other in an output keeps the file's name, the recorded digest and I = O + D, and the
+   store and both verifiers accept.  Known finding `setsum-framing-collision` (a repair has to
+   length-prefix the key, which changes every setsum and every file name: a format change). *)
+Theorem C04_entry_tamper_framing_collision_refuted :
+  exists es es', entries_tampered es es' /\ framing_collision es es' /\
+    forall H, builder_setsum H es = builder_setsum H es'.
+Proof.
+  exists [collide_a], [collide_b]. destruct collide_frames as [Ef Hne]. split; [|split].
+  - exact (EModify [] collide_a collide_b [] Hne).
+  - exists [], collide_a, collide_b, []. repeat split; assumption.
+  - exact framing_collision_same_setsum.
+Qed.
+
+(* ... and every tamper inside that class is invisible to the setsum, for every hash *)
+Theorem C04_framing_collision_keeps_setsum : forall H, hash_ok H -> forall l1 e e' l2,
+  frame e = frame e' -> builder_setsum H (l1 ++ e :: l2) = builder_setsum H (l1 ++ e' :: l2).
+Proof. intros H Hok l1 e e' l2. now apply framing_collision_general. Qed.
+
+(* OUTSIDE the known class (the tamper does not replace an entry by a different entry with the same
+   frame), under the explicit hypothesis on the HASH that it is injective and non-zero on the
+   frames of the entries involved:
    (a) the file's setsum, i.e. its name and the digest the manifest records, changes; *)
-Theorem C04_entry_tamper_changes_setsum : forall H, hash_ok H -> forall es es',
-  entries_tampered es es' -> hash_separates H (es ++ es') -> builder_setsum H es <> builder_setsum H es'.
-Proof. intros H Hok. exact (tampered_entries_change_setsum H Hok). Qed.
+Theorem C04_entry_tamper_changes_setsum_outside_known : forall H, hash_ok H -> forall es es',
+  entries_tampered es es' -> ~ framing_collision es es' -> hash_separates_frames H (es ++ es') ->
+  builder_setsum H es <> builder_setsum H es'.
+Proof. intros H Hok. exact (tampered_entries_change_setsum_outside H Hok). Qed.
 
 (* (b) the store's own balance check refuses to commit the compaction; *)
-Theorem C04_store_refuses_tampered_output : forall H, hash_ok H -> forall b inputs o1 es es' o2 input discard roll,
+Theorem C04_store_refuses_tampered_output_outside_known : forall H, hash_ok H -> forall b inputs o1 es es' o2 input discard roll,
   canonical discard -> canonical input -> Forall (fun f => canonical (bsum f)) (o1 ++ o2) ->
   input = add_state (sum (map bsum (o1 ++ build_file H es :: o2))) discard ->
-  entries_tampered es es' -> hash_separates H (es ++ es') ->
+  entries_tampered es es' -> ~ framing_collision es es' -> hash_separates_frames H (es ++ es') ->
   compaction_finish b inputs (o1 ++ build_file H es' :: o2) input discard roll = Err CStoreBalance.
-Proof. intros H Hok. exact (store_refuses_tampered_output H Hok). Qed.
+Proof.
+  intros H Hok b inputs o1 es es' o2 input discard roll Hd Hi Ho Hbal Ht Hnk Hs.
+  apply (store_refuses_tampered_output_ne H Hok b inputs o1 es es' o2); try assumption.
+  now apply (tampered_entries_change_setsum_outside H Hok).
+Qed.
 
 (* (c) and a log in which the transaction records the tampered file instead is rejected by the
    verifier. *)
-Theorem C04_verifier_rejects_entry_tamper : forall H, hash_ok H -> forall coll disk pre t0 tpre t tpost post l1 es es' l2,
+Theorem C04_verifier_rejects_entry_tamper_outside_known : forall H, hash_ok H -> forall coll disk pre t0 tpre t tpost post l1 es es' l2,
   Forall (Forall txn_canon) (pre ++ [t0 :: tpre ++ t :: tpost]) ->
   frags_ok zero (pre ++ [t0 :: tpre ++ t :: tpost]) ->
-  Forall (Forall (gc_pass H coll disk)) pre ->
+  Forall (Forall (files_pass H coll disk)) pre ->
   tadds t = l1 ++ builder_setsum H es :: l2 ->
-  entries_tampered es es' -> hash_separates H (es ++ es') ->
+  entries_tampered es es' -> ~ framing_collision es es' -> hash_separates_frames H (es ++ es') ->
   rejects (verify_frags H coll disk
              (map (map render) (pre ++ (t0 :: tpre ++ mkT (tI t) (tO t) (tD t) (l1 ++ builder_setsum H es' :: l2) (trms t) (tL t) :: tpost) :: post)) zero).
 Proof.
-  intros H Hok coll disk pre t0 tpre t tpost post l1 es es' l2 Hc Hf Hgc Ea Ht Hs.
+  intros H Hok coll disk pre t0 tpre t tpost post l1 es es' l2 Hc Hf Hgc Ea Ht Hnk Hs.
   apply (C04_verifier_rejects_digit_tamper H coll disk pre t0 tpre t tpost); try assumption.
-  now apply (tampered_add_digest H Hok t l1 es es' l2).
+  apply (tampered_add_digest_ne H Hok t l1 es es' l2); [assumption|].
+  now apply (tampered_entries_change_setsum_outside H Hok).
 Qed.
 
-(* 6. What the verifier does NOT check (stated so that nobody reads more into 4): the I and D of
-   the first edit of a fragment (the roll-up) are not looked at. *)
-Theorem C04_rollup_I_D_not_checked : forall H coll disk t0 post acc vI vD,
-  canonical vI -> canonical vD -> txn_canon t0 ->
-  verify_one H coll disk (map render (mkT vI (tO t0) vD (tadds t0) (trms t0) (tL t0) :: post)) acc =
-  verify_one H coll disk (map render (t0 :: post)) acc.
+(* 5b. In-place tamper: the ENTRIES of an sst an edit adds are changed while its name, the manifest
+   and every digest stay as they were.  Since /repo fix (verify_sst) the verifier reads every sst
+   a judged transaction adds, recomputes the setsum of its entries and compares it with the name:
+   if the file found under an added name holds entries whose setsum is not that name, the pass is
+   rejected - whether or not anything else is in order. *)
+Theorem C04_verifier_rejects_inplace_entry_tamper : forall H coll disk pre t0 tpre t tpost post x es',
+  Forall (Forall txn_canon) (pre ++ [t0 :: tpre ++ t :: tpost]) ->
+  frags_ok zero pre -> Forall (Forall (files_pass H coll disk)) pre ->
+  In x (tadds t) -> lookup disk x = Some es' -> builder_setsum H es' <> x ->
+  rejects (verify_frags H coll disk (map (map render) (pre ++ (t0 :: tpre ++ t :: tpost) :: post)) zero).
 Proof.
-  intros H coll disk t0 post acc vI vD HvI HvD (HI & HO & HD & Ha & Hr).
-  unfold verify_one. cbn [map vloop]. rewrite !vstep_render by (unfold txn_canon; cbn; tauto).
-  reflexivity.
+  intros H coll disk pre t0 tpre t tpost post x es' Hc Hok Hgc Hin Hl Hne.
+  apply Forall_app in Hc. destruct Hc as [Hc1 Hc2]. inversion Hc2 as [|? ? Hcf _]; subst.
+  apply verify_frags_rejects; try assumption; [apply zero_canonical|].
+  apply (verify_one_rejects_bad_sst H coll disk _ t0 tpre t tpost x es'); try assumption.
+  now apply frags_end_canonical; [apply zero_canonical|..].
+Qed.
+
+(* ... in particular one entry of the file dropped, duplicated or modified in place, outside the
+   framing-collision class and under the hypothesis on the hash *)
+Theorem C04_verifier_rejects_inplace_entry_tamper_outside_known : forall H, hash_ok H ->
+  forall coll disk pre t0 tpre t tpost post es es',
+  Forall (Forall txn_canon) (pre ++ [t0 :: tpre ++ t :: tpost]) ->
+  frags_ok zero pre -> Forall (Forall (files_pass H coll disk)) pre ->
+  In (builder_setsum H es) (tadds t) -> lookup disk (builder_setsum H es) = Some es' ->
+  entries_tampered es es' -> ~ framing_collision es es' -> hash_separates_frames H (es ++ es') ->
+  rejects (verify_frags H coll disk (map (map render) (pre ++ (t0 :: tpre ++ t :: tpost) :: post)) zero).
+Proof.
+  intros H Hok coll disk pre t0 tpre t tpost post es es' Hc Hf Hp Hin Hl Ht Hnk Hs.
+  apply (C04_verifier_rejects_inplace_entry_tamper H coll disk pre t0 tpre t tpost post (builder_setsum H es) es'); try assumption.
+  intros E. symmetry in E. revert E. now apply (tampered_entries_change_setsum_outside H Hok).
+Qed.
+
+(* 6. What the verifier does NOT check (stated so that nobody reads more into 4 and 5): of the first
+   edit of a fragment (the zero edit or a roll-up: no removals) only the O is looked at - its I, its
+   D and its ADDED digests can be anything, and the ssts it lists are not read. *)
+Theorem C04_rollup_I_D_adds_not_checked : forall H coll disk t0 post acc vI vD adds',
+  txn_canon t0 -> trms t0 = [] -> canonical vI -> canonical vD -> Forall canonical adds' ->
+  verify_one H coll disk (map render (mkT vI (tO t0) vD adds' [] (tL t0) :: post)) acc =
+  verify_one H coll disk (map render (t0 :: post)) acc.
+Proof. intros H coll. exact (first_edit_only_O H coll). Qed.
+
+(* 6b. LsmVerifier::verify pops the two newest fragments (the newest numbered one and the live
+   MANIFEST): a pass judges a fragment only when at least two fragments follow it.  The rejection
+   theorems above are stated for verify_frags over `pre ++ tampered :: post` with ANY post; for the
+   pass itself they apply when post holds at least two fragments, and a tampered fragment that is
+   one of the two newest is not looked at by that pass. *)
+Lemma removelast2_app {A} (l : list A) x post : (2 <= length post)%nat ->
+  removelast (removelast (l ++ x :: post)) = l ++ x :: removelast (removelast post).
+Proof.
+  intros Hl. destruct post as [|p [|q post]]; cbn [length] in Hl; try lia.
+  rewrite removelast_app by discriminate.
+  change (removelast (x :: p :: q :: post)) with (x :: removelast (p :: q :: post)).
+  rewrite removelast_app by discriminate.
+  change (removelast (x :: removelast (p :: q :: post))) with
+    (match removelast (p :: q :: post) with [] => [] | _ => x :: removelast (removelast (p :: q :: post)) end).
+  change (removelast (p :: q :: post)) with (p :: removelast (q :: post)). reflexivity.
+Qed.
+
+Theorem C04_verify_pass_judges_all_but_two_newest : forall H coll disk l x post acc,
+  ((2 <= length post)%nat ->
+     verify_pass H coll disk (l ++ x :: post) acc = verify_frags H coll disk (l ++ x :: removelast (removelast post)) acc) /\
+  (forall p, verify_pass H coll disk (l ++ [x; p]) acc = verify_frags H coll disk l acc).
+Proof.
+  intros H coll disk l x post acc. unfold verify_pass. split.
+  - intros Hl. now rewrite removelast2_app.
+  - intros p. rewrite removelast_app by discriminate. cbn [removelast]. rewrite removelast_app by discriminate.
+    cbn [removelast]. now rewrite app_nil_r.
+Qed.
+
+Theorem C04_verify_pass_rejects_hex_digit_tamper : forall H coll disk pre t0 tpre t tpost post f i c' cs v v',
+  Forall (Forall txn_canon) (pre ++ [t0 :: tpre ++ t :: tpost]) ->
+  frags_ok zero (pre ++ [t0 :: tpre ++ t :: tpost]) ->
+  Forall (Forall (files_pass H coll disk)) pre ->
+  get_str (render t) f = Some cs -> (i < 64)%nat ->
+  hexval c' = Some v' -> hexval (nth i cs 0) = Some v -> v' <> v ->
+  (2 <= length post)%nat ->
+  rejects (verify_pass H coll disk
+             (map (map render) pre ++ (render t0 :: map render tpre ++ tamper_raw (render t) f i c' :: map render tpost) :: post) zero).
+Proof.
+  intros H coll disk pre t0 tpre t tpost post f i c' cs v v' Hc Hok Hgc Hg Hi Hv' Hv Hne Hl.
+  rewrite (proj1 (C04_verify_pass_judges_all_but_two_newest H coll disk _ _ post zero) Hl).
+  now apply (C04_verifier_rejects_hex_digit_tamper H coll disk pre t0 tpre t tpost _ f i c' cs v v').
 Qed.
 
 (* 7. The bridge to the C01 model.  EVERY accepted history of Lsm/History.v (writes, ingests,
@@ -304,7 +407,7 @@ Proof.
     apply perm_concat, Permutation_sym, HR. }
   split; [exact Hf|]. split; [unfold fragments; now rewrite log_end_snoc|].
   unfold rfragments. rewrite (verify_frags_complete H coll (bdisk b) (fragments b) zero);
-    [|apply (inv_canon H coll b I)|exact Hf|apply (inv_gc H coll b I)].
+    [|apply (inv_canon H coll b I)|exact Hf|apply (inv_files_pass H coll b I)].
   unfold fragments. now rewrite log_end_snoc, He.
 Qed.
 
@@ -360,12 +463,14 @@ Example ex_runs : match brun H_ex coll_newest open_fresh ex_ops with
 Proof. vm_compute. repeat split; discriminate. Qed.
 
 Example ex_hash_separates :
-  hash_separates H_ex ([mkE [1] 3 (Some [10]); mkE [2] 4 (Some [20])] ++ [mkE [1] 3 (Some [10])]).
+  hash_separates_frames H_ex ([mkE [1] 3 (Some [10]); mkE [2] 4 (Some [20])] ++ [mkE [1] 3 (Some [10])]) /\
+  ~ framing_collision [mkE [1] 3 (Some [10]); mkE [2] 4 (Some [20])] [mkE [1] 3 (Some [10])].
 Proof.
-  split.
+  split; [split|].
   - intros e He. cbn in He. destruct He as [<-|[<-|[<-|[]]]]; vm_compute; discriminate.
   - intros e e' He He' Hne. cbn in He, He'.
     destruct He as [<-|[<-|[<-|[]]]]; destruct He' as [<-|[<-|[<-|[]]]]; try (now contradiction Hne); vm_compute; discriminate.
+  - intros (l1 & e & e' & l2 & E1 & E2 & _). apply (f_equal (@length _)) in E1, E2. rewrite !app_length in E1, E2. cbn in E1, E2. lia.
 Qed.
 
 (* the bridge's hypotheses are satisfiable: the example history of Lsm/Props_C01.v extended by a GC
@@ -393,3 +498,16 @@ Example ex_lsm_bridge_ok :
   bridge_okb H_ex (fun k => Nat.even k) (coll_of (gc_table (Lsm.History.init_at 2) ex_lsm_ops))
              (Lsm.History.init_at 2) open_fresh ex_lsm_ops = true.
 Proof. vm_compute. reflexivity. Qed.
+
+(* a digit tamper of a concrete store history, by computation: in the second fragment of the log the
+   example history wrote, the first character of the I of the second edit is replaced by another
+   hex digit; the pass is rejected *)
+Definition ex_b : bstore := match brun H_ex coll_newest open_fresh ex_ops with Ok b => b | _ => open_fresh end.
+Definition ex_other_digit (cs : list N) : N := if nth 0%nat cs 0 =? 102 then 48 else 102.
+Definition ex_tampered_log : list (list rtxn) :=
+  map_nth 1%nat (map_nth 1%nat (fun e => tamper_raw e DI 0%nat (ex_other_digit (match rI e with Some cs => cs | None => [] end)))) (rfragments ex_b).
+Example ex_hex_tamper_rejected :
+  verify_frags H_ex coll_newest (bdisk ex_b) (rfragments ex_b) zero = Ok (mO (bman ex_b)) /\
+  ex_tampered_log <> rfragments ex_b /\
+  exists c, verify_frags H_ex coll_newest (bdisk ex_b) ex_tampered_log zero = Err c.
+Proof. split; [vm_compute; reflexivity|]. split; [vm_compute; discriminate|]. vm_compute. eexists. reflexivity. Qed.
